@@ -77,6 +77,9 @@ class Ctx:
         self._sites = set()
         self.notes = []
         self.anchor_errors = []
+        self.anchor_failed_sites = set()
+        self._firm = set()
+        self.undecided = []
 
     # -- traces ---------------------------------------------------------
     def trace(self, clsname, method, assume=None, nonnull=(), record_loads=True):
@@ -96,9 +99,12 @@ class Ctx:
         return self._traces[key]
 
     # -- obligations ----------------------------------------------------
-    def ob(self, rule, site, construct, ok, message="", ev=None, nontrivial=True):
-        """Record one obligation; a failed one becomes a finding."""
+    def ob(self, rule, site, construct, ok, message="", ev=None, nontrivial=True, firm=False):
+        """Record one obligation; a failed one becomes a finding.  firm=True: the obligation is decided from the data flow alone
+        (it does not depend on recognising an implementation idiom), so a failed anchor at the same site does not weaken it."""
         construct = _slug(str(construct))[:200]
+        if firm and not ok:
+            self._firm.add((rule, site, construct))
         file = line = None
         if ev is not None:
             file = ev.func.file if getattr(ev, "func", None) is not None else None
@@ -126,7 +132,29 @@ class Ctx:
             if ev is not None and getattr(ev, "func", None) is not None:
                 at = " at %s:%s" % (ev.func.file, getattr(ev, "line", "?"))
             self.anchor_errors.append("%s: %s not recognised%s%s" % (site, what, at, (" (" + message[:120] + ")") if message else ""))
+            self.anchor_failed_sites.add(site)
         return ok
+
+    def settle(self):
+        """Obligations about a site whose implementation idiom the analysis failed to recognise (a failed anchor at that
+        site) were evaluated on a subject it could not locate: a failure among them is 'not decided' (exit 2), not a
+        violation.  Findings listed as known are left alone."""
+        if not self.anchor_failed_sites:
+            return
+        known = load_known()
+        keep = []
+        for f in self.findings:
+            is_known = any(k.get("property") == f.pid and k.get("rule") == f.rule and k.get("site") == f.site and k.get("construct") == f.construct for k in known)
+            if f.site in self.anchor_failed_sites and not is_known and (f.rule, f.site, f.construct) not in self._firm:
+                self.undecided.append(f)
+                for o in self.obligations:
+                    if o["rule"] == f.rule and o["site"] == f.site and o["construct"] == f.construct and o["verdict"] == "VIOLATED":
+                        o["verdict"] = "not decided (idiom at this site not recognised)"
+            else:
+                keep.append(f)
+        self.findings = keep
+        if self.undecided:
+            self.anchor_errors.append("%d obligation(s) at %s left undecided" % (len(self.undecided), ", ".join(sorted({f.site for f in self.undecided}))))
 
     def require(self, cond, what):
         if not cond:
